@@ -1235,3 +1235,66 @@ Proof.
   intros Hw Hne Ha Hr. unfold ends_disj. rewrite (stops_ws_head w _ Hw Hne).
   unfold p_or_item, then_, p_lit_tok. rewrite (no_lit_at_word or_lit w a rest or_in_all Hw Ha Hr). reflexivity.
 Qed.
+
+(* ================================================================ instances (non-vacuity) *)
+
+Definition no_lev : str -> levres := fun _ => LRaise (lit "ValueError").
+
+(* the hypotheses of parse_op_atom / match_numeric hold for " = 5 x" read as ws="  ", op="=", w=" ", a="5", rest=" x" *)
+Example ex_op_atom_hyps :
+  In (lit "=", MNum CGe) documented /\ In (lit "=") unary_lits /\ all_ws (lit "  ") = true /\ all_ws (lit " ") = true /\
+  atom_ok (lit "5") = true /\ stops (lit " x") = true /\ clean_join (lit "=") (lit " ") (lit "5") = true /\
+  clean_join (lit "=") [] (lit "5") = true.
+Proof. vm_compute. repeat split; tauto. Qed.
+Example ex_op_atom : parse (lit "  = 5 x") = Some [lit "="; lit "5"].
+Proof. vm_compute. reflexivity. Qed.
+
+(* longer operators win *)
+Example ex_longer_1 : parse (lit "== 5") = Some [lit "=="; lit "5"]. Proof. vm_compute. reflexivity. Qed.
+Example ex_longer_2 : parse (lit "<= 5") = Some [lit "<="; lit "5"]. Proof. vm_compute. reflexivity. Qed.
+Example ex_longer_3 : parse (lit "s<= x") = Some [lit "s<="; lit "x"]. Proof. vm_compute. reflexivity. Qed.
+Example ex_longer_4 : parse (lit "<in> x") = Some [lit "<in>"; lit "x"]. Proof. vm_compute. reflexivity. Qed.
+Example ex_longer_5 : parse (lit "s>=x") = Some [lit "s>="; lit "x"]. Proof. vm_compute. reflexivity. Qed.
+Example ex_longer_6 : parse (lit "<or> a <or> b") = Some [lit "<or>"; lit "a"; lit "b"]. Proof. vm_compute. reflexivity. Qed.
+Example ex_longer_7 : parse (lit "<all-in> aes mmx") = Some [lit "<all-in>"; lit "aes"; lit "mmx"]. Proof. vm_compute. reflexivity. Qed.
+Example ex_longer_8 : parse (lit "<range-in> ( 10 20 ]") = Some [lit "<range-in>"; lit "("; lit "10"; lit "20"; lit "]"].
+Proof. vm_compute. reflexivity. Qed.
+
+(* why clean_join is a hypothesis: gluing '<' and 'in>x' spells the operator '<in>' *)
+Example ex_glue : clean_join (lit "<") [] (lit "in>x") = false /\ parse (lit "<in>x") = Some [lit "<in>"; lit "x"]
+                  /\ parse (lit "< in>x") = Some [lit "<"; lit "in>x"].
+Proof. vm_compute. repeat split. Qed.
+(* why atom_ok is a hypothesis: '=5' starts with an operator *)
+Example ex_not_atom : atom_ok (lit "=5") = false /\ parse (lit "= =5") = None.
+Proof. vm_compute. repeat split. Qed.
+
+(* hypotheses of parse_or / parse_all_in / parse_range_in *)
+Example ex_or_hyps :
+  oitem_ok (lit " ", lit " ", lit "b") = true /\ oitem_ok (lit "  ", [], lit "c") = true /\ ends_disj (lit " d") = true
+  /\ ends_disj [] = true /\ clean_join or_lit [] (lit "a") = true.
+Proof. vm_compute. repeat split. Qed.
+Example ex_all_in_hyps :
+  item_ok (lit " ", lit "mmx") = true /\ ends_atoms (lit "  ") = true /\ ends_atoms (lit " <or> x") = true /\ ends_atoms [] = true.
+Proof. vm_compute. repeat split. Qed.
+
+(* match on concrete inputs (the model is executable) *)
+Example ex_match_1 : match_ no_lev (lit "61") (lit ">= 60") = Val true. Proof. vm_compute. reflexivity. Qed.
+Example ex_match_2 : match_ no_lev (lit "60.0") (lit "= 6e1") = Val true. Proof. vm_compute. reflexivity. Qed.
+Example ex_match_3 : match_ no_lev (lit "abc") (lit ">= 60") = Raise E_Value. Proof. vm_compute. reflexivity. Qed.
+Example ex_match_4 : match_ no_lev (lit "2.1.0") (lit "s== 2.1.0") = Val true. Proof. vm_compute. reflexivity. Qed.
+Example ex_match_5 : match_ no_lev (lit "x gcc y") (lit "<in> gcc") = Val true. Proof. vm_compute. reflexivity. Qed.
+Example ex_match_6 : match_ no_lev (lit "eggs") (lit "<or> spam <or> eggs") = Val true. Proof. vm_compute. reflexivity. Qed.
+Example ex_match_7 : match_ (fun _ => LVal (PInt 10)) (lit "10") (lit "<range-in> ( 10 20 ]") = Val false.
+Proof. vm_compute. reflexivity. Qed.
+Example ex_match_8 : match_ (fun _ => LVal (PInt 10)) (lit "10") (lit "<range-in> [ 10 20 ]") = Val true.
+Proof. vm_compute. reflexivity. Qed.
+Example ex_match_9 : match_ (fun _ => LVal (PList [PStr (lit "aes"); PStr (lit "mmx"); PStr (lit "sse")])) (lit "['aes', 'mmx', 'sse']")
+                            (lit "<all-in> aes mmx") = Val true.
+Proof. vm_compute. reflexivity. Qed.
+(* O5 *)
+Example ex_O5 : match_ no_lev (lit "abc") (lit "abc def") = Val true. Proof. vm_compute. reflexivity. Qed.
+Example ex_unparsable : parse (lit "=== 5") = None /\ match_ no_lev (lit "=== 5") (lit "=== 5") = Val true.
+Proof. vm_compute. split; reflexivity. Qed.
+(* malformed range: fewer than four words after <range-in> falls to '<' + 'range-in>' *)
+Example ex_range_fallback : parse (lit "<range-in> [10 20]") = Some [lit "<"; lit "range-in>"].
+Proof. vm_compute. reflexivity. Qed.
